@@ -4,6 +4,7 @@ import Driver.DagOps
 import Driver.RangeOps
 import Driver.GeomOps
 import Driver.MgrOps
+import Driver.IdOps
 /-
   Line-protocol driver: one operation per input line, one canonical result line per operation.
   Imports Model only (core Lean), so it links as a `lean_exe`.
@@ -12,6 +13,7 @@ open Driver
 
 structure St where
   mgr : Dvid.Manager.State := Dvid.Manager.init
+  ids : Driver.IdSt := {}
 
 def step (st : St) (line : String) : St × String :=
   let w := words line
@@ -32,6 +34,9 @@ def step (st : St) (line : String) : St × String :=
   | none =>
   match mgrOps st.mgr w with
   | some (m, r) => ({ st with mgr := m }, r)
+  | none =>
+  match idOps st.ids w with
+  | some (i, r) => ({ st with ids := i }, r)
   | none => (st, "bad-op")
 
 partial def loop (h : IO.FS.Stream) (out : IO.FS.Stream) (st : St) : IO Unit := do
